@@ -81,10 +81,13 @@ Definition norm_thicknesses (n : nat) (raw : list Q) : list Q :=
   let l := l ++ repeat bottom_thickness (n - length l) in
   set_nth (n - 1) bottom_thickness l.
 
-(* "Reservoir Depth" is multiplied by 1000 only when it appears in the input file; the default 3.0 (km)
-   is otherwise used as it stands by Calculate, which works in metres *)
+(* "Reservoir Depth" (km) is multiplied by 1000 when it is read; since fix a8610e4 the 3.0 km default is converted in the
+   same way when the input file has no such line, so Calculate always works in metres *)
 Definition default_depth : Q := 3.
 Definition depth_metres (user_km : option Q) : Q :=
+  match user_km with Some km => km * 1000 | None => default_depth * 1000 end.
+(* the pinned tree (before the fix) left the default unconverted: 3.0 was walked as 3 m *)
+Definition depth_metres_pinned (user_km : option Q) : Q :=
   match user_km with Some km => km * 1000 | None => default_depth end.
 (* what the depth denotes (and what the report prints): the default is 3 km *)
 Definition depth_denoted_metres (user_km : option Q) : Q :=
@@ -182,6 +185,8 @@ Definition thicknesses_of (i : bht_input) : list Q :=
 
 Definition bht_of_input (i : bht_input) : outcome (Q * Q) :=
   bht_code (bi_n i) (bi_Ts i) (bi_Tmax i) (gradients_of i) (thicknesses_of i) (depth_metres (bi_depth_km i)).
+Definition bht_of_input_pinned (i : bht_input) : outcome (Q * Q) :=
+  bht_code (bi_n i) (bi_Ts i) (bi_Tmax i) (gradients_of i) (thicknesses_of i) (depth_metres_pinned (bi_depth_km i)).
 
 (* the property's right-hand side: surface temperature + integral of the gradients down to the depth the
    input denotes, capped at Tmax *)
